@@ -332,8 +332,10 @@ def run_case(case):
             except ValueError:
                 bump("overwrite_refusals_checked")
             except Exception as ex:
-                bump("overwrite_refusals_checked")
-                sets.setdefault("overwrite_refusal_kinds", []).append(type(ex).__name__)
+                # not a refusal: the write started (and removed the query's own input) before failing
+                viol = dict(progcase.exc_info(ex), oracle="overwrite_guard", symptom="overwrite-of-dataset-being-read-not-refused", detail2="query reads one file of the dataset")
+        if viol is None and not os.path.exists(path):
+            viol = {"oracle": "overwrite_guard", "symptom": "dataset-destroyed-by-refused-overwrite"}
         if viol is None:
             after = dx.read_parquet(path, **kw).compute(scheduler="sync")
             d = compare(after, full, order=True, index=True, dtypes=False)
